@@ -89,6 +89,10 @@ EXPLANATION += (
     ' Round 10: the live configuration is not edited after its copy for the record was taken (R-SAMEVAL/config-as-recorded).'
 )
 
+EXPLANATION += (
+    ' Round 11: the writers do not edit the records (R-ALIAS/records-read-only); the re-order rule of C01 is shared.'
+)
+
 RULE_TEXT = (
     "one obligation per consumed record key, per dataset, per record key "
     "of the codec, per constant relation; non-trivial when the key / "
